@@ -12,6 +12,7 @@ import types
 import uuid
 import warnings
 
+import valgen
 from common import rng, run_driver
 from framework import Run
 
@@ -424,11 +425,50 @@ def main(tier):
                         run.sample({'disagreement': {'request': q, 'impl': a, 'model': b}})
         if dis:
             run.broken.append('correspondence: datetime-family printers (keyword selection / arithmetic) vs Stdlib model, %d disagreements' % dis)
+        # ---- the collections, tied to Model/StdColl.v: text of pformat vs pformat_model (std_print x) -------
+        import printercheck as PC
+        r3 = rng(PROP + '/collections')
+        ccases = []
+        for _ in range(900 if tier == 'quick' else 15000):
+            t = valgen.rand_std(r3)
+            if r3.random() < 0.3:
+                t = r3.choice([('list', [t]), ('dict', [(('str', 'k'), t)]), ('tuple', [t, ('int', 1)]),
+                               ('std', 'deque', [t], None), ('std', 'ordered', [(('str', 'inner'), t)])])
+            cfg = dict(width=r3.choice([1, 20, 40, 79, 200]), indent=r3.choice([2, 4]), sort_dict_keys=r3.random() < 0.4)
+            x = r3.random()
+            if x < 0.15:
+                cfg['max_seq_len'] = r3.choice([1, 2, 3])
+            elif x < 0.3:
+                cfg['depth'] = r3.choice([0, 1, 2])
+            ccases.append(('collections', t, cfg))
+        cres = PC.run_cases(ccases)
+        cdis = PC.disagreements(cres)
+        run.count(len(cres))
+        run.coverage['collections_model_cases'] = len(cres)
+        if cdis:
+            run.broken.append('correspondence: collections printers vs StdColl.std_print through the printer model, '
+                              '%d disagreements' % len(cdis))
+            for c in cdis[:3]:
+                run.sample({'disagreement': PC.case_json(c)})
+        dis += len(cdis)
+        cviol = 0
+        for c in cres:
+            if 'max_seq_len' in c.cfg or 'depth' in c.cfg:
+                continue
+            text, msg = coll_oracle(c.value, c.cfg)
+            if msg:
+                cviol += 1
+                if cviol <= 3:
+                    run.violation({'kind': 'collections', 'detail': msg, 'term': PC.jsonable(c.term), 'cfg': c.cfg,
+                                   'impl': text, 'model': c.model})
         run.coverage['disagreements_checked'] = dis
-        run.coverage['model_cases'] = len(reqs)
+        run.coverage['model_cases'] = len(reqs) + len(cres)
         run.coverage['distinct_nontrivial'] = nontriv
         run.coverage['type_histogram'] = kinds
         run.coverage['rule'] = (
+            'collections (OrderedDict, deque, defaultdict, Counter, ChainMap, mappingproxy, exceptions, partial) built from '
+            'value terms, nested in each other and in containers, under width / indent / sort_dict_keys / max_seq_len / depth: '
+            'text compared with the model (StdColl.std_print through the printer model), eval oracle without cuts; '
             'seeded instances of every standard-library type with a bundled printer: timedelta (zero, max, min, '
             'resolution, +-365 days, negative, random), datetime / time (zero suffixes, fold, tzinfo), date min/max, '
             'timezone (utc, fixed offsets with and without a name, seconds), pytz zones (named and localized DST), '
@@ -442,10 +482,86 @@ def main(tier):
     return run.finish()
 
 
+def coll_equal(a, b):
+    """type-exact structural equality for the collections family: ordered where the type's own equality is ordered
+    (OrderedDict, deque, list, tuple, ChainMap.maps, exception / partial arguments), unordered for dict-like and
+    set-like values; nan equals nan, 0.0 differs from -0.0"""
+    import printercheck as PC
+    if type(a) is not type(b):
+        return False
+    if isinstance(a, collections.OrderedDict):
+        return len(a) == len(b) and all(coll_equal(x, y) for x, y in zip(a.items(), b.items()))
+    if isinstance(a, collections.deque):
+        return a.maxlen == b.maxlen and len(a) == len(b) and all(coll_equal(x, y) for x, y in zip(a, b))
+    if isinstance(a, collections.ChainMap):
+        return coll_equal(a.maps, b.maps)
+    if isinstance(a, (dict, types.MappingProxyType)):
+        if isinstance(a, collections.defaultdict) and a.default_factory is not b.default_factory:
+            return False
+        if len(a) != len(b):
+            return False
+        rest = list(b.items())
+        for k, x in a.items():
+            for i, (k2, x2) in enumerate(rest):
+                if coll_equal(k, k2) and coll_equal(x, x2):
+                    del rest[i]
+                    break
+            else:
+                return False
+        return True
+    if isinstance(a, BaseException):
+        return coll_equal(a.args, b.args)
+    if isinstance(a, functools.partial):
+        return a.func is b.func and coll_equal(a.args, b.args) and coll_equal(a.keywords, b.keywords)
+    if isinstance(a, (list, tuple)):
+        return len(a) == len(b) and all(coll_equal(x, y) for x, y in zip(a, b))
+    if isinstance(a, (set, frozenset)):
+        rest = list(b)
+        for x in a:
+            for i, y in enumerate(rest):
+                if coll_equal(x, y):
+                    del rest[i]
+                    break
+            else:
+                return False
+        return not rest
+    return PC.strict_equal(a, b)
+
+
+def coll_oracle(v, cfg):
+    from prettyprinter import pformat
+    with warnings.catch_warnings(record=True) as ws:
+        warnings.simplefilter('always')
+        try:
+            text = pformat(v, **cfg)
+        except Exception as e:
+            return None, 'pformat raised %s: %s' % (type(e).__name__, e)
+    if ws:
+        return text, 'warning: ' + str(ws[0].message)[:200].replace('\n', ' ')
+    try:
+        back = eval('(' + text + '\n)', dict(NS))
+    except Exception as e:
+        return text, 'output does not evaluate: %s: %s' % (type(e).__name__, str(e)[:100])
+    if not coll_equal(back, v):
+        return text, 'evaluates to %r, not the printed object' % (back,)
+    return text, None
+
+
+def replay_collections(p):
+    import printercheck as PC
+    t = PC.unjson(p['term'])
+    c = PC.run_cases([('replay', t, p['cfg'])])[0]
+    text, msg = coll_oracle(c.value, c.cfg)
+    print('impl:', c.text, '\nmodel:', c.model, '\noracle:', msg)
+    return 1 if msg or c.text != c.model else 0
+
+
 def replay(path):
     with open(path) as f:
         p = json.load(f)
     print(json.dumps(p, indent=1)[:2500])
+    if p.get('kind') == 'collections':
+        return replay_collections(p)
     if 'value' in p:
         try:
             v = eval(p['value'], dict(NS, Color=Color, Perm=Perm, Level=Level, Point=Point, Empty=Empty, MyError=MyError,
